@@ -161,11 +161,48 @@ KIN_FORMULAS = ["NaCl", "KCl", "CaCl2", "Na2SO4", "NaHCO3", "CaSO4", "MgCl2", "C
 KIN_FORMULAS_ISO = ["NaCl", "KCl", "CaCl2", "NaHCO3", "H2O", "CO2"]
 
 
-def adds_text(prof):
+def adds_text(prof, X=None):
     t = "PRINT\n -reset false\n" + RATES_TEXT
+    if X:
+        # names of drawn length (see long_names): a rate, a phase and an exchanger element
+        t += " %s\n -start\n 10 rate = parm(1) * m\n 20 save rate * time\n -end\n" % X["rate"]
+        t += "PHASES\n %s\n NaCl = Na+ + Cl-\n log_k 1.57\n" % X["phase"]
+        q = X["exch"]
+        t += ("EXCHANGE_MASTER_SPECIES\n %s %s-\nEXCHANGE_SPECIES\n %s- = %s-\n log_k 0\n Na+ + %s- = Na%s\n log_k 0\n"
+              " K+ + %s- = K%s\n log_k 0.7\n" % (q, q, q, q, q, q, q, q))
     if "cdmusic" in PROFILES[prof]["surf"]:
         t += CDMUSIC_TEXT
     return t + "END\n"
+
+
+# Name lengths.  The RAW writers put names into fixed-width columns (cxxNameDouble::dump_raw pads to column 29 minus the
+# indentation: 21 characters for a KINETICS -formula token, 23 for exchange/surface component totals, 25 for REACTION
+# reactants and solution lists, 27/29 for outer lists); every length 1..40 is drawn; a third of the draws fall in 17..33, a third on the column widths themselves.
+def name_length(lo=1, hi=40):
+    return st.one_of(st.integers(lo, hi), st.integers(max(lo, 17), min(hi, 33)),
+                     st.sampled_from([n for n in (21, 23, 25, 27, 29) if lo <= n <= hi]))
+
+
+_FORMULA_SHORT = {3: ["KCl", "H2O", "CO2"], 4: ["NaCl"], 5: ["CaCl2", "K2SO4"], 6: ["Na2SO4", "NaHCO3"]}
+_FORMULA_BASES = ["NaCl1", "KCl1", "CaCl2", "Na2SO4", "H2O1", "CO2"]
+
+
+@st.composite
+def long_formula(draw):
+    """a valid neutral formula of a drawn length 3..40: short salts, or <salt>.<zeros> (e.g. CaCl2.000000 = CaCl2)"""
+    L = draw(name_length(3, 40))
+    bases = [b for b in _FORMULA_BASES if len(b) + 2 <= L]
+    if not bases:
+        return draw(st.sampled_from(_FORMULA_SHORT[max(3, min(L, 6))]))
+    b = draw(st.sampled_from(bases))
+    return b + "." + "0" * (L - len(b) - 1)
+
+
+@st.composite
+def long_names(draw):
+    pad = "abcdefghijklmnopqrstuvwxyzabcdefghijklmnopqrstuvwxyz"
+    lr, lp, lq = draw(name_length(3, 40)), draw(name_length(3, 40)), draw(name_length(2, 30))
+    return {"rate": ("rl_" + pad)[:lr], "phase": ("Lp_" + pad)[:lp], "exch": ("Q" + pad)[:lq]}
 
 
 def _some(draw, pool, lo, hi):
@@ -236,7 +273,7 @@ def solution(draw, prof, n, redox):
 
 
 def render_solution(s):
-    L = ["SOLUTION %d" % s["n"], " units mol/kgw", " temp %s" % fmt(s["temp"]),
+    L = [("SOLUTION %d %s" % (s["n"], s.get("desc", ""))).rstrip(), " units mol/kgw", " temp %s" % fmt(s["temp"]),
          " pH %s%s" % (fmt(s["pH"]), " charge" if s["pH_charge"] else ""), " pe 4"]
     if "pressure" in s:
         L.append(" pressure %s" % fmt(s["pressure"]))
@@ -252,9 +289,12 @@ def render_solution(s):
 
 # ---------------------------------------------------------------------------------------------- reactants
 @st.composite
-def reaction(draw, prof, n):
+def reaction(draw, prof, n, X=None):
     P = PROFILES[prof]
     names = _some(draw, P["react"], 1, 3)
+    if draw(st.booleans()):
+        # a reactant whose name has a drawn length: a long formula or the long-named user phase
+        names.append(X["phase"] if X and draw(st.integers(0, 3)) == 0 else draw(long_formula()))
     L = ["REACTION %d" % n]
     for nm in names:
         L.append(" %s %s" % (nm, fmt(draw(st.sampled_from([1.0, 1.0, 0.5, 2.0, 0.25])))))
@@ -269,7 +309,7 @@ def reaction(draw, prof, n):
     else:
         nst = draw(st.integers(1, 3))
         L.append(" %s %s in %d steps" % (fmt(float("%.4g" % (top * scale))), units, nst))
-    return "\n".join(L), nst, ["reaction_steps=%d" % nst]
+    return "\n".join(L), nst, ["reaction_steps=%d" % nst] + ["reactant_name_len=%d" % len(nm) for nm in names if len(nm) >= 17]
 
 
 @st.composite
@@ -332,11 +372,15 @@ def pp(draw, prof, n, redox, need=(), exclude=()):
 
 
 @st.composite
-def exch(draw, prof, n, eq_sol, pp_names, kin_rates):
+def exch(draw, prof, n, eq_sol, pp_names, kin_rates, X=None):
     P = PROFILES[prof]
     L = ["EXCHANGE %d" % n]
     labels = []
     mode = draw(st.sampled_from(["equil", "equil", "explicit", "explicit", "phase", "kin"]))
+    if X and draw(st.integers(0, 2)) == 0:
+        # a second exchanger whose element name has a drawn length (key of the component's -totals list)
+        L.append(" Na%s %s" % (X["exch"], fmt(draw(cg.logu(1e-4, 0.1, 3)))))
+        labels.append("exch_long_element")
     need_pp = None
     if mode == "kin" and not kin_rates:
         mode = "explicit"
@@ -560,18 +604,23 @@ def ss(draw, prof, n, robust=False):
 
 
 @st.composite
-def kin(draw, prof, n):
+def kin(draw, prof, n, X=None):
     nr = draw(st.sampled_from([1, 2, 2, 3]))
-    rates = draw(st.lists(st.sampled_from(["r_first", "r_const", "r_ratio", "r_sum"]), min_size=nr, max_size=nr, unique=True))
+    rates = draw(st.lists(st.sampled_from(["r_first", "r_const", "r_ratio", "r_sum"] + ([X["rate"]] if X else [])),
+                          min_size=nr, max_size=nr, unique=True))
     L = ["KINETICS %d" % n]
     labels = ["kin_comps=%d" % len(rates)]
     pool = KIN_FORMULAS_ISO if prof == "iso" else KIN_FORMULAS
     for r in rates:
         k = draw(st.integers(1, 2))
         f = [[nm, draw(st.sampled_from([1.0, 1.0, 0.5, 2.0]))] for nm in _some(draw, pool, k, k)]
+        if draw(st.booleans()):
+            # a -formula token of a drawn length (key of the component's -namecoef list)
+            f[0][0] = X["phase"] if X and draw(st.integers(0, 3)) == 0 else draw(long_formula())
+            labels.append("kin_formula_token_len=%d" % len(f[0][0]))
         m0 = draw(cg.logu(1e-4, 0.5, 3))
         m = m0 if draw(st.booleans()) else float("%.3g" % (m0 * draw(cg.uni(0.1, 1.0, 2))))
-        if r == "r_first":
+        if r == "r_first" or r.startswith("rl_"):
             parms = [draw(cg.logu(1e-9, 1e-6, 2))]
         else:
             # zero-order-like laws: the reactant must outlast the history and the follow-up (<= 4 steps of <= 1e4 s), an
@@ -633,10 +682,18 @@ def case_strategy(draw, tier="quick"):
     labels = ["profile=" + prof, "redox=" + redox]
     ns = draw(st.integers(1, 3))
     sols = [draw(solution(prof, i + 1, redox)) for i in range(ns)]
+    X = draw(long_names())
+    for sl in sols:
+        if draw(st.integers(0, 2)) == 0:
+            # a description of drawn length 1..40 (kept in the header of the RAW block)
+            sl["desc"] = draw(st.text(alphabet="abcXYZ019 _-.,()+", min_size=1, max_size=40)).strip()
     balanced = all(s["balance"] != "none" for s in sols)
     sim0 = [KNOBS] + [render_solution(s) for s in sols] + ["END"]
     sims = ["\n".join(sim0) + "\n"]
-    c = 10
+    # the cell number: mostly 10, sometimes a user number with many digits
+    c = draw(st.sampled_from([10] * 8 + [4321, 987654, 1234567]))
+    if c != 10:
+        labels.append("cell_number_digits=%d" % len(str(c)))
     src = draw(st.integers(1, ns))
     temp0 = sols[src - 1]["temp"]
     # ---- which reactant kinds
@@ -657,12 +714,12 @@ def case_strategy(draw, tier="quick"):
     # phases an exchanger / surface may be tied to: sparingly soluble (never exhausted at 10 mol), not in a solid solution
     relp = [m for m in ("Calcite", "Gypsum", "Dolomite", "Quartz", "Barite", "Celestite") if m in P["minerals"] and m not in ss_comps]
     if "kin" in want:
-        t, kin_rates, nst, lb = draw(kin(prof, c))
+        t, kin_rates, nst, lb = draw(kin(prof, c, X))
         defs.append(t); labels += lb; nsteps = max(nsteps, nst)
     ex_t = su_t = None
     need = []
     if "exch" in want:
-        ex_t, np_, lb = draw(exch(prof, c, src, relp, kin_rates))
+        ex_t, np_, lb = draw(exch(prof, c, src, relp, kin_rates, X))
         labels += lb
         if np_:
             need.append(np_); want.add("pp")
@@ -684,7 +741,7 @@ def case_strategy(draw, tier="quick"):
     if ss_t:
         defs.append(ss_t); labels += ss_lb
     if "reaction" in want:
-        t, nst, lb = draw(reaction(prof, c))
+        t, nst, lb = draw(reaction(prof, c, X))
         defs.append(t); labels += lb; nsteps = max(nsteps, nst)
     if draw(st.integers(0, 4)) == 0:
         if draw(st.booleans()):
@@ -807,6 +864,8 @@ def case_strategy(draw, tier="quick"):
     for s in ss_comps:
         col("ss_" + s, "mol", 'S_S("%s")' % s)
     if "exch" in want:
+        if "exch_long_element" in labels:
+            col("x_long", "mol", 'MOL("Na%s")' % X["exch"])
         for sp in sorted(P["exch"]):
             col("x_" + sp, "mol", 'MOL("%s")' % sp)
     if "surf" in want:
@@ -848,7 +907,7 @@ def case_strategy(draw, tier="quick"):
         if "pressure" in want:
             F.append("USE reaction_pressure %d" % c)
         if draw(st.integers(0, 2)) > 0:
-            t, nst, lb = draw(reaction(prof, 99))
+            t, nst, lb = draw(reaction(prof, 99, X))
             F.append(t)
             labels.append("follow=use+new_reaction")
         else:
@@ -856,5 +915,5 @@ def case_strategy(draw, tier="quick"):
         FP += F[n0:]
     F.append("END")
     FP.append("END")
-    return {"db": P["db"], "adds": adds_text(prof), "sims": sims, "follow": "\n".join(F) + "\n",
+    return {"db": P["db"], "adds": adds_text(prof, X), "sims": sims, "follow": "\n".join(F) + "\n",
             "follow_p": "\n".join(FP) + "\n", "cols": cols, "redox": redox, "labels": labels}
